@@ -12,12 +12,12 @@ import (
 // code. A CR at the end of a line is the documented limitation and is not in
 // any multi-entry alphabet.
 var (
-	vfSigmaCore = []string{"a", "b", "", " ", "---", "/-/-/-/", "----", "[TestA - 1]", "[TestA - 2]", "[TestQ - 7]", "\xff", "$1", "%d"}
+	vfSigmaCore = []string{"a", "b", "", " ", "---", "/-/-/-/", "----", "[TestA - 1]", "[TestA - 2]", "[TestQ - 7]", "\xff", "$1", "%d", "--- "}
 	vfSigmaFull = []string{"a", "b", "", " ", "\t", "---", "/-/-/-/", "----", "--- ", " ---",
 		"[TestA - 1]", "[TestA - 2]", "[TestA - 10]", "[TestB - 1]", "[TestQ - 7]", "[Test", "]",
 		"\xff", "\xfe", "a\xffb", "é", "a\rb", "- x", "+ x", "  x", "@@ -1 +1 @@",
-		"$1", "${a}", "$$", "%d", "%s", "%", "\\1", "\\"}
-	vfSigmaSmall = []string{"a", "", "---", "/-/-/-/", "[TestA - 2]", "[TestQ - 7]", "$1"}
+		"$1", "${a}", "$$", "%d", "%s", "%", "\\1", "\\", "---\t", "100% done"}
+	vfSigmaSmall = []string{"a", "", "---", "/-/-/-/", "[TestA - 2]", "[TestQ - 7]", "$1", "--- "}
 )
 
 // vfBodies enumerates every body of 0..maxLines lines over sigma, each
